@@ -395,21 +395,111 @@ func genParserHistory(r *kit.Rand, pool func() []byte) []HistStep {
 		}
 		hist = append(hist, h)
 	}
+	// the entry point the input under test goes through afterwards
+	if op := kit.Pick(r, []string{"parse", "parse", "parse", "stmts", "interactive", "interactive", "words", "document", "arithmetic"}); op != "parse" {
+		hist = append(hist, HistStep{Op: "final:" + op, AbandonAfter: -1, FailAt: -1, ShortAt: -1, Plan: OneShot()})
+	}
 	return hist
 }
 
+// finalOpOf returns the entry point the input under test goes through after
+// the history: the last history step may be a marker "final:<op>"; without
+// one it is Parse.
+func finalOpOf(hist []HistStep) string {
+	if n := len(hist); n > 0 && strings.HasPrefix(hist[n-1].Op, "final:") {
+		return hist[n-1].Op[len("final:"):]
+	}
+	return "parse"
+}
+
+// traceOp runs one parser entry point over data and returns everything a
+// caller can observe, as text: nodes (with positions) in the order they are
+// handed out, callback boundaries and Incomplete flags, and the error.
+func traceOp(p *syntax.Parser, op string, data []byte, plan Plan) (out string) {
+	var sb strings.Builder
+	defer func() {
+		if r := recover(); r != nil {
+			out = sb.String() + fmt.Sprintf("PANIC %v\n", r)
+		}
+	}()
+	rd := NewSimReader(data, plan)
+	switch op {
+	case "stmts":
+		for st, err := range p.StmtsSeq(rd) {
+			if err != nil {
+				fmt.Fprintf(&sb, "ERR %s\n", errString(err))
+				break
+			}
+			fmt.Fprintf(&sb, "STMT %s\n", dump(st))
+		}
+	case "interactive":
+		for stmts, err := range p.InteractiveSeq(rd) {
+			if err != nil {
+				fmt.Fprintf(&sb, "ERR %s\n", errString(err))
+				break
+			}
+			fmt.Fprintf(&sb, "CALLBACK after %d bytes incomplete=%v n=%d\n", rd.Delivered(), p.Incomplete(), len(stmts))
+			for _, st := range stmts {
+				fmt.Fprintf(&sb, "STMT %s\n", dump(st))
+			}
+		}
+	case "words":
+		for w, err := range p.WordsSeq(rd) {
+			if err != nil {
+				fmt.Fprintf(&sb, "ERR %s\n", errString(err))
+				break
+			}
+			fmt.Fprintf(&sb, "WORD %s\n", dump(w))
+		}
+	case "document":
+		w, err := p.Document(rd)
+		if w == nil {
+			fmt.Fprintf(&sb, "DOC <nil> ERR %s\n", errString(err))
+		} else {
+			fmt.Fprintf(&sb, "DOC %s ERR %s\n", dump(w), errString(err))
+		}
+	case "arithmetic":
+		x, err := p.Arithmetic(rd)
+		if x == nil {
+			fmt.Fprintf(&sb, "ARITH <nil> ERR %s\n", errString(err))
+		} else {
+			fmt.Fprintf(&sb, "ARITH %s ERR %s\n", dump(x), errString(err))
+		}
+	}
+	return sb.String()
+}
+
 func checkParserReuse(cfg Cfg, hist []HistStep, data []byte, plan Plan, st *Stats) (ok bool, class, detail string) {
-	fresh, _ := parseWith(cfg, data, plan)
+	op := finalOpOf(hist)
+	steps := hist
+	if op != "parse" {
+		steps = hist[:len(hist)-1]
+	}
 	p := cfg.parser()
-	for i := range hist {
-		applyParserStep(p, &hist[i], st)
+	for i := range steps {
+		applyParserStep(p, &steps[i], st)
 	}
-	got := parseUsing(p, NewSimReader(data, plan))
-	ok, class, detail = comparePR(fresh, got)
-	if !ok {
-		class = "reused-parser-" + class
+	if op == "parse" {
+		fresh, _ := parseWith(cfg, data, plan)
+		got := parseUsing(p, NewSimReader(data, plan))
+		ok, class, detail = comparePR(fresh, got)
+		if !ok {
+			class = "reused-parser-" + class
+		}
+		return
 	}
-	return
+	if op == "interactive" {
+		plan.LineMode = true
+	}
+	fresh := traceOp(cfg.parser(), op, data, plan)
+	got := traceOp(p, op, data, plan)
+	if st != nil {
+		st.Probes.Add("reuse-final-op-"+op, 1)
+	}
+	if fresh != got {
+		return false, "reused-parser-" + op + "-differs", "what " + op + " hands out on the reused parser differs from a fresh one: " + firstDiff(fresh, got)
+	}
+	return true, "", ""
 }
 
 // ---- printer
@@ -589,6 +679,11 @@ func runC08(it *Item, tier string, st *Stats) ([]Violation, uint64) {
 	// from here, so the pool is generated from this item's seed.
 	poolRand := r.Fork("pool")
 	pool := func() []byte {
+		if poolRand.Chance(1, 4) {
+			// the hand-written inputs: special words at the end, special
+			// constructs at the start, multi-line statements
+			return []byte(kit.Pick(poolRand, extraInputs))
+		}
 		lang := kit.Pick(poolRand, allLangs)
 		return []byte(NewGen(poolRand.Fork("p"), lang).Program())
 	}
@@ -648,6 +743,23 @@ func runC08(it *Item, tier string, st *Stats) ([]Violation, uint64) {
 			}
 		} else {
 			st.Info.Add("unparseable-input-skipped-for-stmts/interactive", 1)
+		}
+		// (3a) the hand-written inputs after each special ending, alone
+		if strings.HasPrefix(it.Origin, "extra[") {
+			for _, se := range specialEndings {
+				h := HistStep{Op: kit.Pick(r, []string{"parse", "parse", "stmts", "interactive", "words"}), AbandonAfter: -1, FailAt: -1, ShortAt: -1, Plan: OneShot()}
+				h.setInput([]byte(se))
+				hist := []HistStep{h}
+				ok, class, detail := checkParserReuse(cfg, hist, data, OneShot(), st)
+				st.Evals++
+				st.Families.Add("parser-reuse-after-special-ending", 1)
+				st.Distinct[inputHash^cfgHash*31^histHash(hist)*131^5] = struct{}{}
+				logDigest(histHash(hist) + 5)
+				if !ok {
+					viols = append(viols, mkC08Violation(it, "reuse", cfg, data, OneShot(), hist, nil, class, detail))
+					logDigest(kit.Hash64([]byte(class)))
+				}
+			}
 		}
 		// (3) reuse histories (the input under test may be valid or not)
 		for i := 0; i < nhist; i++ {
